@@ -1003,11 +1003,25 @@ func genTree(r *RNG, kind string) lTree {
 	if r.Chance(1, 6) {
 		nf = r.Range(10, 30)
 	}
+	// bushy trees: the root includes many files which each include a few more, so that more loader goroutines than
+	// any plausible concurrency limit are waiting for children at the same time (seeded change C19-c bounded the
+	// errgroup to 16 goroutines and deadlocked on such trees)
+	bushyW := 0
+	if r.Chance(1, 10) {
+		bushyW = r.Range(17, 48)
+		nf = 1 + bushyW + bushyW*r.Range(1, 3)
+	}
 	t := lTree{Kind: kind}
 	parent := make([]int, nf)
 	dirs := []string{"", "", "sub/", "sub/deep/", "other/"}
 	for i := 0; i < nf; i++ {
 		t.Files = append(t.Files, lFile{Path: fmt.Sprintf("%sf%d.knut", Pick(r, dirs), i)})
+		if bushyW > 0 {
+			if i > bushyW {
+				parent[i] = 1 + (i-bushyW-1)%bushyW
+			}
+			continue
+		}
 		if i > 0 {
 			switch r.Intn(3) {
 			case 0:
